@@ -51,7 +51,9 @@ NBINS = 100                                                # number_of_bins of t
 # strain extremes (TOL_LF = twice the solver's rtol) and, through the crack opening logic only, the P_RAJ lifetime.  TOL_LF is
 # kept from before the repair b50f603: on that tree the values differed between the vectorised and the single solve (measured
 # deviation then: up to 1.1e-6 of the largest strain seen in 1000 batch points).  Since b50f603 the Seeger-Beste solver is a
-# per-element bisection (no scipy iteration, no dependence on the companion elements); the deviation has not been re-measured.
+# per-element bisection (no scipy iteration, no dependence on the companion elements; stopping rule and end values corrected by
+# 8e3c607).  TOL_LF has not been tightened after either commit and no separate measurement was made; every run records its largest
+# deviation in distribution.max_rel_batch_LF (quick tier, seed 1, /repo 2da931b: 0.0).
 TOL_RAM = 1e-8
 TOL_RAJ = 1e-6
 TOL_MONO = 1e-6
@@ -109,10 +111,12 @@ def node_loads(L, cs, k, scale=1.0):
 ID_KINDS = ["range", "offset", "gaps", "descending", "shuffled"]
 ID_KINDS_ASC = ["range", "offset", "gaps"]
 # load_step labels: every layout of harness/hcm.py except "descending".  The docstring of the assessment asks for consecutive
-# labels from 0; the code accepts any labels whose first-run shift (+1) does not collide with a label of the second run.
-# Labels descending by one do collide: FKMNonlinearRecorder._get_for_every_node infers the number of points from runs of equal
-# load_step labels and gets twice the number (ValueError "operands could not be broadcast together" in .collective, e.g. loads
-# [186, 263, -374, 235] x ratios 1 : 1.4 with labels 1000, 999, 998, 997) - outside the documented input, not generated.
+# labels from 0; the code accepts any labels.  Labels descending by one collide after the first-run shift (+1) with a label of the
+# second run: until /repo commit 2dcaa8f FKMNonlinearRecorder._get_for_every_node inferred the number of points from runs of equal
+# load_step labels and got twice the number (ValueError "operands could not be broadcast together" in .collective, e.g. loads
+# [186, 263, -374, 235] x ratios 1 : 1.4 with labels 1000, 999, 998, 997).  Repaired by 2dcaa8f (filed under C05, whose generator and
+# C04's use every layout incl. "descending"; witness corpus/C05/descending-labels-start-at-zero.json); C10 has not taken the layout
+# into its generator yet: it COULD be generated now, nothing in the code stands against it any more.
 STEP_KINDS = [k for k in hcm.LABELS if k != "descending"]
 
 
@@ -210,9 +214,10 @@ def ctx_of(case):
 
 
 def node_order_desc(case, msg):
-    return (f"a batch whose node_id labels are not ascending ({(case.get('lay') or {}).get('ids')}) cannot be assessed: the per-point maxima "
-            f"(before /repo commit 64dfe3b fkm_load_sequence.maximum_absolute_load grouped and SORTED by node_id) and with them the look-up tables "
-            f"are matched to the points by position: ValueError {msg}; {ctx_of(case)}")
+    return (f"a batch whose node_id labels are not ascending ({(case.get('lay') or {}).get('ids')}) cannot be assessed, the binned look-up "
+            f"refuses a load of one of its points: ValueError {msg} - the mechanism of the finding batch-node-order, fixed by /repo commit "
+            f"64dfe3b (since then fkm_load_sequence.maximum_absolute_load keeps the nodes in the order of the load sequence; before, it "
+            f"grouped and SORTED by node_id while the look-up tables are matched to the points by position); {ctx_of(case)}")
 
 
 class NodeOrderDefect(Exception):
@@ -559,8 +564,8 @@ class C10(Prop):
         "in the model of a batch the first point's stresses/strains that only steer min/max selections are evaluated with the assessed point's table (only their order matters; table values are positive); beyond the last class edge the model returns the last class value where the code raises (never reached for the point's own loads)",
         "beta = compute_beta(P_A) (the normal quantile since /repo commit 763ab65; a root search before) is taken from the real run (C09); loads of correspondence cases are integers with c = 1, P_L = 50 so that the scaled loads are exact",
         "scope of 'non-reversal sample' at the head of the sequence: the first pass starts at load 0, so a prepended sample is a non-reversal when it lies between the first sample and BOTH the initial load 0 and the last sample; a value between the last and the first sample only IS a reversal of the first pass and changes the first-pass hystereses (kernel-checked example C10.prepend_between_last_and_first_changes_records)",
-        "a load_step label is a label: the history is the row order of the Series (the docstring asks for consecutive labels from 0; increasing labels with other starts / steps and one shuffled labelling are accepted by the code and generated; labels DESCENDING by one are not: the first run shifts its labels by +1, they then collide with labels of the second run and FKMNonlinearRecorder._get_for_every_node, which infers the number of points from runs of equal labels, raises ValueError - outside the documented input, reported, not generated)",
-        "oracle tolerances: batch vs single / refined vs base lifetimes 1e-8 (P_RAM) and 1e-6 (P_RAJ) relative (measured noise of the vectorised Newton tables: lifetimes <= 6e-12 (P_RAM) and <= 4e-11 (P_RAJ), recorded per run in distribution.max_rel_*); monotonicity 1e-6; verdicts compared only when P_max is more than 1e-3 away from the endurance value; running strain extremes batch vs single to 2e-5 of the largest strain of the history (the Seeger-Beste primary branch is solved to rtol 1e-5; tolerance kept from before the repair b50f603, measured deviation then 1.1e-6; since b50f603 the Seeger-Beste solver is a per-element bisection without scipy and without dependence on companion elements, not re-measured); scipy 'Failed to converge' (scipy.optimize.newton: the extended-Neuber tables and the closure-stress Newton iteration of the P_RAJ damage parameter; no longer the Seeger-Beste tables) is counted, not judged",
+        "a load_step label is a label: the history is the row order of the Series (the docstring asks for consecutive labels from 0; increasing labels with other starts / steps and one shuffled labelling are accepted by the code and generated; labels DESCENDING by one are not generated by C10: the first run shifts its labels by +1, they then collide with labels of the second run, and until /repo commit 2dcaa8f FKMNonlinearRecorder._get_for_every_node, which inferred the number of points from runs of equal labels, raised ValueError - repaired by 2dcaa8f (filed under C05; C04 / C05 generate that layout), so the layout could be generated here as well; C10's generator has not been extended)",
+        "oracle tolerances: batch vs single / refined vs base lifetimes 1e-8 (P_RAM) and 1e-6 (P_RAJ) relative (measured noise of the vectorised Newton tables: lifetimes <= 6e-12 (P_RAM) and <= 4e-11 (P_RAJ), recorded per run in distribution.max_rel_*); monotonicity 1e-6; verdicts compared only when P_max is more than 1e-3 away from the endurance value; running strain extremes batch vs single to 2e-5 of the largest strain of the history (the Seeger-Beste primary branch is solved to rtol 1e-5; tolerance kept from before the repair b50f603, measured deviation then 1.1e-6; since b50f603 the Seeger-Beste solver is a per-element bisection without scipy and without dependence on companion elements, and since 8e3c607 it stops at 5 % of tol + rtol |root| and interpolates with the analytic end values: a batch and a single run solve the same element the same way.  The tolerance 2e-5 has NOT been tightened after either commit; no separate measurement campaign was made, but every run records its largest deviation in distribution.max_rel_batch_LF (quick tier, seed 1, /repo 2da931b: 0.0)); scipy 'Failed to converge' (scipy.optimize.newton: the extended-Neuber tables and the closure-stress Newton iteration of the P_RAJ damage parameter; no longer the Seeger-Beste tables) is counted, not judged",
         "finding classes are guarded in the oracle: batch-node-order (fixed by /repo commit 64dfe3b, so a failure of this class is reported, not tolerated) only for a batch whose node labels are not ascending; the open classes: mono-P_RAM-early-failure-count only across the early-failure boundary with n1 >= n2 + 2 first/second-pass hystereses and an increase <= n1 - n2 cycles (exactly the complement of the theorems' hypothesis Regime); mono-pa-above-half only for P_A > 0.5 compared with exactly 0.5; mono-P_RAJ-rough / -pa only with fewer than 1000 P_RAJ classes, an increase <= 60 % that vanishes (<= 3 %) when the same pair is re-run with 2000 classes; mono-P_RAJ-scale only when the P_RAJ value of one of the (same) hystereses is smaller in the scaled run (crack closure); mono-P_RAJ-scale-classing like -rough with an increase <= 2 %; anything else of the same relation is reported under another class",
     ]
 
